@@ -6,6 +6,7 @@ import (
 	"testing"
 
 	"github.com/ErdemOzgen/blackdagger/verifharness/rep"
+	"github.com/ErdemOzgen/blackdagger/verifharness/retrysim"
 	"github.com/ErdemOzgen/blackdagger/verifharness/sim"
 	"pgregory.net/rapid"
 )
@@ -88,6 +89,13 @@ func TestProp(t *testing.T) {
 	})
 }
 
+// TestRetryRun: exactly-once and the retry bound also hold in a run that
+// retries a recorded run (steps kept are not executed at all, re-executed
+// steps get a fresh retry budget and record the retries of this run).
+func TestRetryRun(t *testing.T) {
+	rapid.Check(t, func(t *rapid.T) { retrysim.Check(t, ID, "retryrun", retrysim.Gen(t)) })
+}
+
 func TestReplay(t *testing.T) {
 	p := rep.ReplayPath()
 	if p == "" {
@@ -96,6 +104,16 @@ func TestReplay(t *testing.T) {
 	cf, err := rep.LoadCase(p)
 	if err != nil {
 		t.Fatal(err)
+	}
+	if cf.Sub == "retryrun" {
+		var rc retrysim.Case
+		if err := json.Unmarshal(cf.Case, &rc); err != nil {
+			t.Fatal(err)
+		}
+		for i := 0; i < 20; i++ {
+			retrysim.Check(t, ID, "retryrun", rc)
+		}
+		return
 	}
 	var c sim.Case
 	if err := json.Unmarshal(cf.Case, &c); err != nil {
